@@ -73,6 +73,12 @@ func (C13) Generate(r *core.Rand, tier string, idx int) *core.Scenario {
 	if r.P(1, 6) {
 		sc.Cfg["nobody"] = 1
 	}
+	if r.P(1, 3) {
+		sc.Cfg["viarec"] = 1 // some messages reach INBOX through the recovery mailbox
+	}
+	if r.P(1, 4) {
+		sc.Cfg["emptypart"] = 1
+	}
 	if r.P(1, 8) {
 		sc.Cfg["prefixb"] = 1
 	}
@@ -443,6 +449,7 @@ func (x *c13Run) newMessage(a core.Action) *gen.Message {
 		Binary:         sc.C("binary") == 1,
 		NoBody:         sc.C("nobody") == 1,
 		PrefixBoundary: sc.C("prefixb") == 1,
+		EmptyPart:      sc.C("emptypart") == 1,
 	}
 	if o.MaxDepth > 0 {
 		o.MaxDepth = 1 + a.Arg(2)%o.MaxDepth
@@ -503,9 +510,66 @@ func (x *c13Run) exec(a core.Action) {
 		}
 		g := x.newMessage(a)
 		x.user.Conn.TakeCalls()
+		viaRec := x.sc.C("viarec") == 1 && a.Arg(4)%3 == 1
+		if viaRec {
+			// the remote refuses this message once: it is kept in the recovery mailbox, and a
+			// further session moves or copies it into INBOX afterwards - a third way in
+			x.user.Conn.Arm(simconn.KCreateMessage, simconn.ErrInjected)
+		}
 		r := cs.s.Do(wire.WithLiteral("APPEND INBOX ", g.Bytes, ""))
 		x.ev("append", i, g.Marker, len(g.Bytes), r.Status)
 		x.stream(i, r, "APPEND")
+		if viaRec {
+			x.user.Conn.Disarm()
+			x.scanFiles()
+			if r.OK() {
+				e.Fail("append-status", "APPEND answered OK although the remote refused the message")
+				return
+			}
+			x.user.Conn.TakeCalls()
+			rs, err := e.W.Connect()
+			if err != nil {
+				e.Infra = err
+				return
+			}
+			ok := rs.Cmd("LOGIN user pass").OK()
+			rs.M.Reset(recoveryName, false)
+			if ok = ok && rs.Cmd("SELECT %s", Quote(recoveryName)).OK(); !ok || rs.M.Count() == 0 {
+				// (an undecodable or oversized shape may not have been kept: not this property)
+				e.St.Probes["append_rejected"]++
+				rs.Cmd("LOGOUT")
+				rs.C.Dead = true
+				x.settle()
+				return
+			}
+			verb := []string{"MOVE", "COPY"}[abs(a.Arg(4)/3)%2]
+			r2 := rs.Cmd("%s %d INBOX", verb, rs.M.Count())
+			x.ev("out-of-recovery", verb, g.Marker, r2.Status)
+			if verb == "COPY" && r2.OK() {
+				rs.Cmd("STORE %d +FLAGS.SILENT (\\Deleted)", rs.M.Count())
+				rs.Cmd("EXPUNGE")
+			}
+			rs.Cmd("LOGOUT")
+			rs.C.Dead = true
+			fresh := x.scanFiles()
+			if !r2.OK() {
+				e.St.Probes["append_rejected"]++
+				x.settle()
+				return
+			}
+			var remote imap.MessageID
+			for _, c := range x.user.Conn.TakeCalls() {
+				if c.Kind == simconn.KCreateMessage && c.Err == nil {
+					remote = imap.MessageID(c.NewID)
+				}
+			}
+			if !x.register(g, "recovered", remote, fresh) {
+				return
+			}
+			e.St.Probes["msg_by_recovery_mailbox"]++
+			x.settle()
+			return
+		}
 		fresh := x.scanFiles()
 		if !r.OK() {
 			// whether every generated shape is acceptable to APPEND is not this property
